@@ -190,7 +190,7 @@ theorem change_outcome {e : Emu} (h : WF e) {ti : Nat} {t : Thread} (ht : e.thre
   obtain ⟨c, hc⟩ : ∃ c, e.cpus[ci]? = some c :=
     ⟨_, List.getElem?_eq_getElem (hth.cpuLt ci hcpu)⟩
   have hcp := h.cpu ci c hc
-  refine outcome_of_closed (preThreadChange_eq h ht ok st hcpu hc hok hne) ?_ ?_
+  refine outcome_of_closed (preThreadChange_eq h ht ok st hcpu hc hok hne hl1) ?_ ?_
   · intro hg
     have := guard_true_not_noOversub hc (thsX := e.threads.set ti (t.withState st)) (fun _ _ => rfl)
       (hcp.mem.set_same ht rfl) hg
